@@ -647,8 +647,14 @@ class NUMERIC(FieldType):
         return min_value, max_value
 
     def default_column(self):
-        return columns.NumericColumn(self.sortable_typecode,
-                                     default=self.default)
+        # The column holds sortable representations, so the default has to be
+        # converted like every value (the automatic default of an integer
+        # field already is the largest sortable number)
+        default = self.default
+        if not (self.numtype is int
+                and default == typecode_max[self.sortable_typecode]):
+            default = self.to_column_value(default)
+        return columns.NumericColumn(self.sortable_typecode, default=default)
 
     def is_valid(self, x):
         try:
